@@ -219,6 +219,11 @@ pub fn finish(ctx: &Ctx, mut rep: Report) -> i32 {
             );
         }
     }
+    // maintenance aid (tools/gen_c17_findings.py): the keys of all violations not listed as known findings
+    if let Ok(path) = std::env::var("MWMC_DUMP_VIOLATIONS") {
+        let all: Vec<Value> = fresh.iter().map(|v| json!({"key": v.key, "observed": v.observed, "class": v.class})).collect();
+        let _ = std::fs::write(&path, serde_json::to_string_pretty(&all).unwrap());
+    }
     let dir = PathBuf::from(format!("{}/replays/{}", out_root(), ctx.prop));
     // replay files describe this run only
     let _ = std::fs::remove_dir_all(&dir);
@@ -328,9 +333,56 @@ pub fn finish(ctx: &Ctx, mut rep: Report) -> i32 {
     }
 }
 
-/// Install a panic hook that prints nothing (panics of the subject are outcomes, not noise).
+thread_local! {
+    /// message and source location of this thread's most recent panic (the hook prints nothing)
+    static LAST_PANIC: std::cell::RefCell<String> = const { std::cell::RefCell::new(String::new()) };
+}
+static CURRENT_PROP: std::sync::OnceLock<String> = std::sync::OnceLock::new();
+
+pub fn set_current_prop(p: &str) {
+    let _ = CURRENT_PROP.set(p.to_string());
+}
+
+/// Install a panic hook that prints nothing (panics of the subject are outcomes, not noise) but remembers
+/// where the panic came from, for `uncaught_panic`.
 pub fn silence_panics() {
-    std::panic::set_hook(Box::new(|_| {}));
+    std::panic::set_hook(Box::new(|info| {
+        let loc = info.location().map(|l| format!("{}:{}", l.file(), l.line())).unwrap_or_default();
+        let msg = if let Some(s) = info.payload().downcast_ref::<&str>() {
+            s.to_string()
+        } else if let Some(s) = info.payload().downcast_ref::<String>() {
+            s.clone()
+        } else {
+            "panic".to_string()
+        };
+        LAST_PANIC.with(|p| *p.borrow_mut() = format!("{} at {}", msg, loc));
+    }));
+}
+
+/// A panic that no `catch_unwind` of a check caught. If it was raised inside the subject (an API of the
+/// library called outside a guarded region) it is a violation for the case in progress; if it was raised
+/// by the harness itself it is a machinery failure (exit 3), never a verdict.
+pub fn uncaught_panic() -> ! {
+    use std::io::Write;
+    let what = LAST_PANIC.with(|p| p.borrow().clone());
+    let case = MY_BEAT.with(|b| b.borrow().as_ref().map(|b| b.lock().unwrap().1.clone()).unwrap_or_default());
+    let prop = CURRENT_PROP.get().cloned().unwrap_or_else(|| "C00".into());
+    // raised inside the library, or by the heap audit that the harness attaches to every collection
+    let in_subject = what.contains("/marwood/src/") || what.contains("marwood/src/") || what.starts_with("heap audit failed");
+    if in_subject {
+        let dir = format!("{}/replays/{}", out_root(), prop);
+        let _ = std::fs::create_dir_all(&dir);
+        let path = format!("{}/panic-{:08x}.json", dir, fnv(&format!("{}{}", case, what)) as u32);
+        let body = json!({"property": prop, "key": format!("panic:{}", case), "class": "panic-in-library-call", "observed": "panic",
+            "detail": {"session": [case], "panic": what, "note": "a library call made by the harness outside a guarded region panicked"}});
+        let _ = std::fs::write(&path, serde_json::to_string_pretty(&body).unwrap());
+        println!("VIOLATION property={} replay={}", prop, path);
+        println!("  key=panic class=panic-in-library-call observed=panic ({})", what);
+        let _ = std::io::stdout().flush();
+        std::process::exit(1);
+    }
+    eprintln!("MACHINERY-FAILURE: the harness panicked: {} (case in progress: {})", what, case);
+    std::process::exit(3);
 }
 
 pub fn panic_message(e: &Box<dyn std::any::Any + Send>) -> String {
@@ -367,20 +419,26 @@ where
                 .name(format!("mwmc-{}", t))
                 .stack_size(256 << 20)
                 .spawn_scoped(scope, move || {
-                    let mut st = init();
-                    let mut acc = zero();
-                    loop {
-                        let lo = next.fetch_add(chunk, Ordering::Relaxed);
-                        if lo >= n {
-                            break;
+                    let work = std::panic::catch_unwind(std::panic::AssertUnwindSafe(|| {
+                        let mut st = init();
+                        let mut acc = zero();
+                        loop {
+                            let lo = next.fetch_add(chunk, Ordering::Relaxed);
+                            if lo >= n {
+                                break;
+                            }
+                            let hi = (lo + chunk).min(n);
+                            for i in lo..hi {
+                                f(&mut st, &mut acc, i);
+                            }
+                            beat_idle();
                         }
-                        let hi = (lo + chunk).min(n);
-                        for i in lo..hi {
-                            f(&mut st, &mut acc, i);
-                        }
-                        beat_idle();
+                        acc
+                    }));
+                    match work {
+                        Ok(acc) => acc,
+                        Err(_) => uncaught_panic(),
                     }
-                    acc
                 })
                 .expect("spawn");
             handles.push(h);
